@@ -132,7 +132,9 @@ func (f *cronFake) Start(d *dag.DAG, _ client.StartOptions) error {
 	base := f.record("start", d)
 	wall := f.wall
 	n := len(f.calls)
-	f.pending = append(f.pending, func() { f.addRun(base, wall.Add(time.Duration(n%60)*time.Second)) })
+	// the first start of a tick is recorded with the wall clock itself (which is
+	// often exactly second :00 of the minute), later ones some seconds into it
+	f.pending = append(f.pending, func() { f.addRun(base, wall.Add(time.Duration((n-1)*7%60)*time.Second)) })
 	f.parked++
 	rel := f.release
 	f.mu.Unlock()
@@ -777,8 +779,12 @@ func cronPlan(r *rand.Rand, files []*cronFile, budget int) []cronWindow {
 	// windows must not go back in time (the fake's history is ordered)
 	var out []cronWindow
 	var end time.Time
-	for _, w := range ws {
-		if w.Start.Before(end) {
+	for i, w := range ws {
+		if i > 0 && r.Intn(3) == 0 && w.Start.Sub(end) < 48*time.Hour {
+			// the daemon is restarted within the minute of its predecessor's last tick
+			w.Start = end.Add(-time.Minute)
+			w.Why += " (daemon restart in the minute of the previous daemon's last tick)"
+		} else if w.Start.Before(end) {
 			// daemon restarted inside the previous window's last minute or later
 			w.Start = end.Add(-time.Minute)
 			w.Why += " (daemon restart in the minute of the previous daemon's last tick)"
@@ -860,7 +866,7 @@ func c09Set(c *core.Ctx, idx int, watcher bool) {
 				switch r.Intn(6) {
 				case 0: // a manual run started earlier in the first tick's minute
 					h.fake.mu.Lock()
-					h.fake.runs[f.Name] = append(h.fake.runs[f.Name], &cronRun{startedAt: w.Start.Add(7 * time.Second), endTick: h.fake.tickNo + 1, status: dagsched.StatusRunning})
+					h.fake.runs[f.Name] = append(h.fake.runs[f.Name], &cronRun{startedAt: w.Start.Add(time.Duration(r.Intn(2)*7) * time.Second), endTick: h.fake.tickNo + 1, status: dagsched.StatusRunning})
 					h.fake.mu.Unlock()
 					c.Count("prior_same_minute", 1)
 				case 1: // still running for a while
@@ -897,7 +903,7 @@ func c09Set(c *core.Ctx, idx int, watcher bool) {
 				c.Count("late_ticks", 1)
 			}
 			pre := h.snapshot()
-			calls, ok := h.tick(m, wall.Add(time.Duration(r.Intn(3))*time.Second))
+			calls, ok := h.tick(m, wall.Add(time.Duration(r.Intn(3)*r.Intn(2))*time.Second))
 			if !ok && h.tickHung {
 				violate(cronVerdict{"daemon-stuck", fmt.Sprintf("the tick for %s did not return within 30 s: the daemon no longer schedules anything (files: %d, watcher=%v)", m.Format(time.RFC3339), len(files), watcher), ""}, m, w)
 				return
